@@ -152,11 +152,46 @@ width_ops!(w128, u128, 16, [CRC_82_DARC],
 
 pub const WIDTHS: [usize; 5] = [8, 16, 32, 64, 128];
 
+/// For CRC-32 the crate root re-exports convenience wrappers (`postcard::take_from_bytes_crc32`, …).
+/// They are one-line delegations; half of the CRC-32 algorithms go through them so that an edit of
+/// a wrapper is seen under damage too.
+mod w32root {
+    use super::*;
+    fn take(x: &[u8], a: usize) -> Result<PcResult<Taken>, String> {
+        if a % 2 == 1 {
+            return (w32::OPS.take)(x, a);
+        }
+        sut::call(|| {
+            postcard::take_from_bytes_crc32::<DynOwned>(x, w32::CRCS[a].digest()).map(|(d, rem)| Taken {
+                val: d.0,
+                rem: rem.len(),
+                suffix: rem.len() <= x.len() && rem.as_ptr_range().end == x.as_ptr_range().end,
+            })
+        })
+    }
+    fn from(x: &[u8], a: usize) -> Result<PcResult<Val>, String> {
+        if a % 2 == 1 {
+            return (w32::OPS.from)(x, a);
+        }
+        sut::call(|| postcard::from_bytes_crc32::<DynOwned>(x, w32::CRCS[a].digest()).map(|d| d.0))
+    }
+    pub static OPS: Ops = Ops {
+        bytes: 4,
+        algs: w32::PARAMS,
+        ser_alloc: w32::OPS.ser_alloc,
+        ser_slice: w32::OPS.ser_slice,
+        ser_hvec: w32::OPS.ser_hvec,
+        take,
+        from,
+        oneshot: w32::OPS.oneshot,
+    };
+}
+
 pub fn ops(width_bits: usize) -> Option<&'static Ops> {
     match width_bits {
         8 => Some(&w8::OPS),
         16 => Some(&w16::OPS),
-        32 => Some(&w32::OPS),
+        32 => Some(&w32root::OPS),
         64 => Some(&w64::OPS),
         128 => Some(&w128::OPS),
         _ => None,
